@@ -338,21 +338,16 @@ def _mechanisms(ctx, ea, residues: Dict[str, Any]) -> List[Ob]:
                 if isinstance(n, ast.Attribute) and norm(n.value) == "self" and n.attr in ("loop_stack", "try_stack", "_pending_labels"):
                     readers.add(n.attr)
     per_fn: Dict[str, Dict[str, Tuple[bool, bool, bool]]] = {}
+
+    from ..util import state_protocol
+
     for fname in ("_compile_function", "_compile_arrow_function"):
         f = ea.methods.get(fname)
-        txts = [norm(s) for s in f.body()]
-        attrs = set(readers)
-        # every compiler attribute this function saves or re-initialises is per-function state
-        for x in txts:
-            m1 = re.match(r"^old_\w+ = self\.(\w+)$", x)
-            if m1:
-                attrs.add(m1.group(1))
+        saved_attrs, reset_attrs, restored_attrs = state_protocol(ctx, f)
+        attrs = set(readers) | (saved_attrs & restored_attrs)
         per_fn[fname] = {}
         for attr in sorted(attrs):
-            saved = any(re.match(rf"^\w+ = self\.{attr}$", x) for x in txts)
-            reset = any(re.match(rf"^self\.{attr} = ", x) and not x.startswith(f"self.{attr} = old") for x in txts)
-            restored = any(x.startswith(f"self.{attr} = old") for x in txts)
-            per_fn[fname][attr] = (saved, reset, restored)
+            per_fn[fname][attr] = (attr in saved_attrs, attr in reset_attrs, attr in restored_attrs)
     all_attrs = sorted(set().union(*[set(v) for v in per_fn.values()]))
     for fname in per_fn:
         f = ea.methods.get(fname)
